@@ -11,6 +11,7 @@ import (
 	"log/slog"
 	"math/rand"
 	"net"
+	"sort"
 	"sync"
 	"time"
 
@@ -33,6 +34,7 @@ type kaEvent struct {
 	disabled bool
 	offMs    int64
 	n        int
+	write    bool // the broker wrote n bytes to the connection
 }
 
 // kaConn is a net.Conn that records SetDeadline/SetReadDeadline arguments relative to a reference
@@ -45,6 +47,7 @@ type kaConn struct {
 	parked chan struct{} // signalled each time Read is entered with nothing pending
 	rest   []byte
 	closed bool
+	writes int
 }
 
 func (c *kaConn) Read(p []byte) (int, error) {
@@ -69,7 +72,18 @@ func (c *kaConn) Read(p []byte) (int, error) {
 	c.mu.Unlock()
 	return n, nil
 }
-func (c *kaConn) Write(p []byte) (int, error) { return len(p), nil }
+func (c *kaConn) Write(p []byte) (int, error) {
+	c.mu.Lock()
+	c.events = append(c.events, kaEvent{write: true, n: len(p)})
+	c.writes++
+	c.mu.Unlock()
+	return len(p), nil
+}
+func (c *kaConn) nWrites() int {
+	c.mu.Lock()
+	defer c.mu.Unlock()
+	return c.writes
+}
 func (c *kaConn) Close() error {
 	c.mu.Lock()
 	c.closed = true
@@ -101,6 +115,7 @@ func kaServer() *mqtt.Server {
 	s := mqtt.New(&mqtt.Options{
 		Logger:       slog.New(slog.NewTextHandler(io.Discard, nil)),
 		Capabilities: caps,
+		InlineClient: true,
 	})
 	_ = s.AddHook(new(auth.AllowHook), nil)
 	return s
@@ -237,11 +252,208 @@ func kaSessionCase(k uint16, evs []kaEvent) sx.V {
 	for _, e := range evs {
 		if e.arm {
 			l = append(l, sx.L{sx.N(0), sx.Bool(e.disabled), sx.N(e.offMs)})
+		} else if e.write {
+			l = append(l, sx.L{sx.N(2), sx.N(e.n)})
 		} else {
 			l = append(l, sx.L{sx.N(1), sx.N(e.n)})
 		}
 	}
 	return sx.L{sx.N(1), sx.N(k), l}
+}
+
+// kaFeed hands one packet to a connection's reader and waits until the broker is parked in Read again.
+func kaFeed(c *kaConn, done chan struct{}, p []byte) bool {
+	select {
+	case <-c.parked:
+	case <-done:
+		return false
+	case <-time.After(5 * time.Second):
+		return false
+	}
+	c.feed <- p
+	return true
+}
+
+func kaStart(s *mqtt.Server) (*kaConn, chan struct{}) {
+	c := &kaConn{feed: make(chan []byte), parked: make(chan struct{}, 1)}
+	done := make(chan struct{})
+	go func() { _ = s.EstablishConnection("t", c); close(done) }()
+	return c, done
+}
+
+func kaEnd(c *kaConn, done chan struct{}) {
+	select {
+	case <-c.parked:
+	case <-done:
+	case <-time.After(2 * time.Second):
+	}
+	close(c.feed)
+	select {
+	case <-done:
+	case <-time.After(5 * time.Second):
+	}
+}
+
+// kaSessionWrites: a subscriber with keepalive K that stays silent after its SUBSCRIBE while the
+// broker writes to it on its own initiative — a retained message on subscribe, deliveries caused
+// by an inline publish or by another client, another client's will — each at least 80 ms (more
+// than the probe tolerance) after the subscriber's last inbound packet.  Offsets of SetDeadline
+// calls are measured from that last inbound packet: a deadline moved by a write shows as an
+// offset above 1.5 K + tolerance.
+func kaSessionWrites(rng *rand.Rand, k uint16) (evs []kaEvent, ok bool) {
+	s := kaServer()
+	if rng.Intn(2) == 0 {
+		_ = s.Publish("ka/retained", []byte("r"), true, 0)
+	}
+	version := byte(4 + rng.Intn(2))
+	sub, subDone := kaStart(s)
+	props := []byte{}
+	if version == 5 {
+		props = []byte{0}
+	}
+	sb := append([]byte{0, 1}, props...)
+	sb = append(sb, 0, 4, 'k', 'a', '/', '#', byte(rng.Intn(2)))
+	ok = kaFeed(sub, subDone, kaConnect(version, k, "kasub")) &&
+		kaFeed(sub, subDone, append([]byte{0x82, byte(len(sb))}, sb...))
+	// wait until the subscriber is parked again (SUBACK and any retained message written)
+	if ok {
+		select {
+		case <-sub.parked:
+			sub.parked <- struct{}{}
+		case <-subDone:
+			ok = false
+		case <-time.After(5 * time.Second):
+			ok = false
+		}
+	}
+	waitWrite := func(before int) {
+		for i := 0; i < 2000 && sub.nWrites() <= before; i++ {
+			time.Sleep(time.Millisecond)
+		}
+	}
+	rounds := 1 + rng.Intn(3)
+	for r := 0; ok && r < rounds; r++ {
+		time.Sleep(80 * time.Millisecond)
+		before := sub.nWrites()
+		switch rng.Intn(3) {
+		case 0: // inline publish
+			_ = s.Publish("ka/inline", []byte("x"), false, byte(rng.Intn(2)))
+		case 1: // another client publishes
+			pc, pd := kaStart(s)
+			pb := []byte{0, 4, 'k', 'a', '/', 'p', 'y'}
+			if kaFeed(pc, pd, kaConnect(4, 0, "kapub")) {
+				kaFeed(pc, pd, append([]byte{0x30, byte(len(pb))}, pb...))
+			}
+			kaEnd(pc, pd)
+		default: // another client's will
+			wc, wd := kaStart(s)
+			vh := []byte{0, 4, 'M', 'Q', 'T', 'T', 4, 0x06, 0, 0, 0, 6, 'k', 'a', 'w', 'i', 'l', 'l', 0, 4, 'k', 'a', '/', 'w', 0, 1, 'w'}
+			kaFeed(wc, wd, append([]byte{0x10, byte(len(vh))}, vh...))
+			kaEnd(wc, wd) // the connection ends without DISCONNECT: the will is published
+		}
+		waitWrite(before)
+	}
+	if ok && rng.Intn(2) == 0 { // the subscriber speaks again: a proper re-arm
+		ok = kaFeed(sub, subDone, []byte{0xc0, 0})
+	}
+	if ok {
+		select {
+		case <-sub.parked:
+			sub.parked <- struct{}{}
+		case <-subDone:
+		case <-time.After(5 * time.Second):
+			ok = false
+		}
+	}
+	sub.mu.Lock()
+	evs = append(evs, sub.events...)
+	sub.mu.Unlock()
+	kaEnd(sub, subDone)
+	return evs, ok
+}
+
+// kaRealtimeMixed: a subscriber over net.Pipe that is silent after SUBSCRIBE while an inline
+// publisher delivers to it every pubEveryMs; it must be closed 1.5 K after the SUBSCRIBE.
+// case = (3 K ((0 t_in) | (1 t_out) ...) closed closed_at until)
+func kaRealtimeMixed(k uint16, pubEveryMs, watchMs int64) sx.V {
+	s := kaServer()
+	a, b := net.Pipe()
+	done := make(chan struct{})
+	go func() { _ = s.EstablishConnection("t", b); close(done) }()
+	type hev struct {
+		out bool
+		t   int64
+	}
+	var mu sync.Mutex
+	var hist []hev
+	var start time.Time
+	closedCh := make(chan time.Time, 1)
+	started := make(chan struct{})
+	go func() {
+		buf := make([]byte, 512)
+		<-started
+		for {
+			_, err := a.Read(buf)
+			now := time.Now()
+			if err != nil {
+				closedCh <- now
+				return
+			}
+			mu.Lock()
+			hist = append(hist, hev{true, now.Sub(start).Milliseconds()})
+			mu.Unlock()
+		}
+	}()
+	fail := func() sx.V { return sx.L{sx.N(3), sx.N(k), sx.L{}, sx.N(0), sx.N(0), sx.N(0)} }
+	if _, err := a.Write(kaConnect(4, k, "rtsub")); err != nil {
+		return fail()
+	}
+	start = time.Now()
+	close(started)
+	sb := []byte{0, 1, 0, 4, 'k', 'a', '/', '#', 0}
+	if _, err := a.Write(append([]byte{0x82, byte(len(sb))}, sb...)); err != nil {
+		return fail()
+	}
+	tsub := time.Since(start).Milliseconds()
+	mu.Lock()
+	hist = append(hist, hev{false, tsub})
+	mu.Unlock()
+	stopPub := make(chan struct{})
+	go func() {
+		tk := time.NewTicker(time.Duration(pubEveryMs) * time.Millisecond)
+		defer tk.Stop()
+		for {
+			select {
+			case <-stopPub:
+				return
+			case <-tk.C:
+				_ = s.Publish("ka/rt", []byte("p"), false, 0)
+			}
+		}
+	}()
+	closed, closedAt := false, int64(0)
+	select {
+	case ct := <-closedCh:
+		closed, closedAt = true, ct.Sub(start).Milliseconds()
+	case <-time.After(time.Duration(tsub+watchMs) * time.Millisecond):
+	}
+	until := time.Since(start).Milliseconds()
+	close(stopPub)
+	_ = a.Close()
+	select {
+	case <-done:
+	case <-time.After(5 * time.Second):
+	}
+	mu.Lock()
+	defer mu.Unlock()
+	sort.SliceStable(hist, func(i, j int) bool { return hist[i].t < hist[j].t })
+	l := sx.L{}
+	for _, h := range hist {
+		if h.t <= until {
+			l = append(l, sx.L{sx.Bool(h.out), sx.N(h.t)})
+		}
+	}
+	return sx.L{sx.N(3), sx.N(k), l, sx.Bool(closed), sx.N(closedAt), sx.N(until)}
 }
 
 // kaRealtime: real server, net.Pipe, wall-clock.  gaps (ms) between the packets the harness sends
@@ -383,6 +595,49 @@ func engKeepalive(seed int64, tier string, _ []string, out *sx.Out) {
 		}(i, sc)
 	}
 
+	// sessions and real-time runs in which the broker writes to a silent subscriber
+	wks := []uint16{1, 1, 2, 3, 5, 10, 60, 0, 43691, 65535}
+	type mixedScen struct {
+		k            uint16
+		every, watch int64
+	}
+	mixed := []mixedScen{{1, 400, 2600}}
+	if tier == "thorough" {
+		for i := 0; i < 60; i++ {
+			wks = append(wks, uint16(rng.Intn(65536)))
+		}
+		mixed = []mixedScen{{1, 400, 2600}, {1, 1000, 2600}, {2, 700, 4500}, {3, 1200, 6500}, {0, 500, 3000}}
+	}
+	wseeds := make([]int64, len(wks))
+	for i := range wseeds {
+		wseeds[i] = rng.Int63()
+	}
+	wevs := make([][]kaEvent, len(wks))
+	mixedOut := make([]sx.V, len(mixed))
+	sem := make(chan struct{}, 6)
+	for i := range wks {
+		wg.Add(1)
+		go func(i int) {
+			defer wg.Done()
+			sem <- struct{}{}
+			defer func() { <-sem }()
+			for attempt := 0; attempt < 3; attempt++ {
+				evs, ok := kaSessionWrites(rand.New(rand.NewSource(wseeds[i])), wks[i])
+				wevs[i] = evs
+				if ok && kaSessionQuiet(evs) {
+					return
+				}
+			}
+		}(i)
+	}
+	for i, m := range mixed {
+		wg.Add(1)
+		go func(i int, m mixedScen) {
+			defer wg.Done()
+			mixedOut[i] = kaRealtimeMixed(m.k, m.every, m.watch)
+		}(i, m)
+	}
+
 	// (i) exhaustive: every keepalive value
 	s := kaServer()
 	for k := 0; k <= 65535; k++ {
@@ -421,5 +676,11 @@ func engKeepalive(seed int64, tier string, _ []string, out *sx.Out) {
 	wg.Wait()
 	for _, r := range rts {
 		out.Case(r.toCase())
+	}
+	for i, evs := range wevs {
+		out.Case(kaSessionCase(wks[i], evs))
+	}
+	for _, c := range mixedOut {
+		out.Case(c)
 	}
 }
